@@ -528,7 +528,8 @@ package engine
 //@   modifies inferred
 //@   ensures step: cellOk(es) && frozen(es, e0) && rdData(es.reader) == d0
 //@   ensures taken: some ==> consumed(es, e0, d0, es.currentFileOffset - o) && len(from) <= es.currentFileOffset - o && es.currentFileOffset - o <= len(to) && rangeHit(d0, o, from, to, not, es.currentFileOffset - o) && (forall m :: { ssub(d0, o, o + m) } es.currentFileOffset - o < m && m <= len(to) ==> !rangeHit(d0, o, from, to, not, m)) [C01]
-//@   ensures refused: !some ==> backtrackOf(es, nb, snap) [C01]
+//@   atcall BACKTRACK none: !some [C01]
+//@   atcall NEXT hit: some [C01]
 //@   loop 1 invariant cellOk(es) && frozen(es, e0) && rdData(es.reader) == d0 && i <= len(to)
 //@   loop 1 invariant longest: *es == e0 && (forall m :: { ssub(d0, o, o + m) } i < m && m <= len(to) ==> !rangeHit(d0, o, from, to, not, m)) [C01]
 //@   loop 1 decreases i + 1
